@@ -174,7 +174,12 @@ class StructureMetaType(MetaType):
                 # If a field already has an offset, it's leading
                 offset = field.offset
 
-            if align and offset is not None:
+            field_type = field.type
+            if field.bits and isinstance(field_type, EnumMetaType):
+                field_type = field_type.type
+
+            # A bit field that continues the current storage unit lives inside that unit and is not aligned itself
+            if align and offset is not None and not (field.bits and bits_remaining and field_type == bits_type):
                 # Round to next alignment
                 offset += -offset & (field.alignment - 1)
 
@@ -182,11 +187,6 @@ class StructureMetaType(MetaType):
             alignment = max(alignment, field.alignment)
 
             if field.bits:
-                field_type = field.type
-
-                if isinstance(field_type, EnumMetaType):
-                    field_type = field_type.type
-
                 # Bit fields have special logic
                 if (
                     # Exhausted a bit field
@@ -258,7 +258,12 @@ class StructureMetaType(MetaType):
                 offset = struct_start + field.offset
                 stream.seek(offset)
 
-            if cls.__align__ and field.offset is None:
+            if cls.__align__ and field.offset is None and not (
+                # A bit field that continues the current storage unit lives inside that unit
+                field.bits
+                and bit_buffer._remaining
+                and bit_buffer._type == (field.type.type if isinstance(field.type, EnumMetaType) else field.type)
+            ):
                 # Previous field was dynamically sized and we need to align
                 offset += -offset & (field.alignment - 1)
                 stream.seek(offset)
